@@ -31,6 +31,9 @@ structure BShape (c : Cfg) : Prop where
   down : ∀ p ∈ evK c, ∀ f, brEv p f → ∀ s s', (f.jid, s) ∈ c.batches → 0 < s' → s' ≤ s → s' % f.mc = 0 → (f.jid, s') ∈ c.batches
   bmult : ∀ p ∈ evK c, ∀ f, brEv p f → ∀ s, (f.jid, s) ∈ c.batches → 0 < s ∧ s % f.mc = 0 ∧ s < f.width
   bjlt : ∀ b ∈ c.batches, b.1 < c.nextJ
+  /-- at most one re-entry event is queued -/
+  reone : ∀ p1 ∈ evK c, ∀ p2 ∈ evK c, ∀ f1 s1 st1 o1 f2 s2 st2 o2, p1.2 = .reenter f1 s1 st1 o1 → p2.2 = .reenter f2 s2 st2 o2 →
+    p1 = p2
 
 /-- the liveness fact: a batch that is full in the join in memory, with a successor, has the successor on record -/
 structure BJoin (c : Cfg) : Prop where
@@ -49,6 +52,7 @@ theorem BShape.congr {c d : Cfg} (h : BShape c) (h1 : evK d = evK c) (h2 : d.bat
   · rw [h1, h2]; exact h.down
   · rw [h1, h2]; exact h.bmult
   · rw [h2, h3]; exact h.bjlt
+  · rw [h1]; exact h.reone
 
 theorem BJoin.congr {c d : Cfg} (h : BJoin c) (h1 : evK d = evK c) (h2 : d.batches = c.batches) (h3 : d.joins = c.joins) :
     BJoin d := by
@@ -118,6 +122,15 @@ theorem batch_ge {mc k i : Nat} (hmc : 0 < mc) (hi : k * mc + mc ≤ i) : k + 1 
   refine ⟨h1, ?_⟩
   have := Nat.mul_le_mul_right mc h1
   rw [Nat.add_mul, Nat.one_mul] at this; exact this
+
+/-- a slot below a batch start: the next batch after the slot's starts there at the latest -/
+theorem next_le {mc i s : Nat} (hmc : 0 < mc) (hs : s % mc = 0) (hi : i < s) : i / mc * mc + mc ≤ s := by
+  have h2 : s / mc * mc = s := by
+    have := Nat.div_add_mod s mc
+    rw [hs, Nat.add_zero, Nat.mul_comm] at this; exact this
+  have h1 : i / mc < s / mc := (Nat.div_lt_iff_lt_mul hmc).mpr (by rw [h2]; exact hi)
+  have := Nat.mul_le_mul_right mc (Nat.succ_le_of_lt h1)
+  rw [Nat.succ_mul, h2] at this; exact this
 
 /-- **`BShape` survives the publication of the re-entry event** by the branch event `x` (slot `f.idx`) whose end completes its
 batch: the next batch exists and is not on record -/
@@ -216,6 +229,20 @@ theorem BShape.publish {c d : Cfg} (hS : Shape c) (hB : BShape c) {x : Nat × Ev
     rcases (hbm _).mp hb' with h | rfl
     · exact hB.bjlt b h
     · exact hS.jlt x hx f hxf
+  · -- no re-entry event was queued: its batch would be on record, and with it the one that is published now
+    have hnone : ∀ p ∈ evK c, ∀ g s st o, p.2 ≠ .reenter g s st o := by
+      intro p hp g s st o hk
+      obtain ⟨_, hin, hall⟩ := hB.re p hp g s st o hk
+      obtain ⟨hj, _, _, hm, hlt⟩ := hall x hx f hxf
+      have hbmu := hB.bmult x hx f hxf s (hj ▸ hin)
+      have hle := next_le hmc hbmu.2.1 hlt
+      exact hrec (hB.down x hx f hxf s (nextStart f) (hj ▸ hin) (nextStart_pos hmc) hle nextStart_mod)
+    intro p1 hp1 p2 hp2 f1 s1 st1 o1 f2 s2 st2 o2 h1 h2
+    rcases (hmem p1).mp hp1 with h | rfl
+    · exact absurd h1 (hnone p1 h f1 s1 st1 o1)
+    · rcases (hmem p2).mp hp2 with h | rfl
+      · exact absurd h2 (hnone p2 h f2 s2 st2 o2)
+      · rfl
 
 /-! ### the liveness fact along the steps -/
 
